@@ -145,10 +145,19 @@ fn generic<F: ShortMessageFactory + Copy>(carrier: &'static str, structured: boo
         // channel_message
         for c in 0u8..16 {
             let mut pairs: Vec<(u8, u8)> = vec![];
-            for a in (0u8..128).step_by(step) {
-                for b in bd {
-                    pairs.push((a, b));
-                    pairs.push((b, a));
+            if is_channel && !cfg.as_c18 && (c == 0 || c == 15 || c == (*tb >> 4) % 16) {
+                // the complete data byte product on three channels per type
+                for a in 0u8..128 {
+                    for b in 0u8..128 {
+                        pairs.push((a, b));
+                    }
+                }
+            } else {
+                for a in (0u8..128).step_by(step) {
+                    for b in bd {
+                        pairs.push((a, b));
+                        pairs.push((b, a));
+                    }
                 }
             }
             for (a, b) in pairs {
@@ -189,9 +198,14 @@ fn generic<F: ShortMessageFactory + Copy>(carrier: &'static str, structured: boo
             }
         }
         // system_common_message
-        for a in (0u8..128).step_by(step) {
-            for b in bd {
-                for (x, y) in [(a, b), (b, a)] {
+        let common_pairs: Vec<(u8, u8)> = if is_common && !cfg.as_c18 {
+            (0u8..128).flat_map(|a| (0u8..128).map(move |b| (a, b))).collect()
+        } else {
+            (0u8..128).step_by(step).flat_map(|a| bd.into_iter().flat_map(move |b| [(a, b), (b, a)])).collect()
+        };
+        for (x, y) in common_pairs {
+            {
+                {
                     let r = api_probe("ShortMessageFactory::system_common_message", || {
                         built(&F::system_common_message(*ty, u7(x), u7(y)))
                     });
